@@ -227,6 +227,7 @@ contract('AdbDevice._clse',
          modifies=IO_MOD + RD_MOD,
          ensures=[('C04', 'exactly-one-CLSE-sent', "G.wire == old(G.wire) + frame(CLSE, adb_info.local_id, adb_info.remote_id, b'')"),
                   ('C04', 'device-CLSE-received', 'D_cmd({0}, {1}) == CLSE and G.di == store(old(G.di), {0}, {1} + 1)'.format(LID, DI0)),
+                  ('C08,C09', 'no-sync-input-consumed', 'G.sgot == old(G.sgot)'),
                   RELEASED, MONO],
          raises=exc_all([RELEASED, MONO]))
 
